@@ -81,3 +81,14 @@ def _gcxs_axes_nodes(j, acc):
 def _classify_c06(name, case, msg):
     # F-gcxs-axes-set-order (check_compressed_axes and axes >= 8) is repaired by /repo cbb2544: no C06 region is left
     return None
+
+
+def _classify_c01(name, case, msg):
+    # F-c01-out-overrides-dtype: with out= given, __array_ufunc__ replaces a user-supplied dtype= by out's dtype, so the loop runs in
+    # out's dtype instead of the requested one.  Region: both given and different, the call returned, out kept its dtype, only the
+    # VALUES differ from NumPy's (NumPy's are those of the narrower / other loop dtype).  Anything else (out changing its dtype, an
+    # exception, a changed input) is not this finding.
+    if (name == "out+dtype" and isinstance(case, dict) and case.get("dtype") != case.get("out_dtype") and msg.startswith("out= holds")):
+        return "F-c01-out-overrides-dtype"
+    return None
+
